@@ -6,9 +6,10 @@ import Rdm.Ops.Heuristics
 import Rdm.Ops.BiasesA
 import Rdm.Ops.BiasesB
 import Rdm.Ops.Pipeline
+import Rdm.Ops.Decide
 namespace Rdm.Ops
 
 def allOps : List (String × (List SExp → R SExp)) :=
-  rankingOps ++ utilityOps ++ linksOps ++ electreOps ++ heuristicsOps ++ biasesAOps ++ biasesBOps ++ pipelineOps
+  rankingOps ++ utilityOps ++ linksOps ++ electreOps ++ heuristicsOps ++ biasesAOps ++ biasesBOps ++ pipelineOps ++ decideOps
 
 end Rdm.Ops
